@@ -1,6 +1,7 @@
 import json, os, sys
 sys.path.insert(0, os.path.dirname(__file__))
 import cfg_common as cc
+import reconciler_part
 
 PKG = "internal/k8s/controllers"
 
@@ -42,6 +43,8 @@ def run(ctx):
     ctx.cov["correspondence"] = {"cases": len(cases), "toconfig_cases": len(tc), "mismatches": len(mism),
                                  "generator_counters": st,
                                  "oracle_evaluations": st.get("oracle_evaluations", 0)}
+    # the reconciler glue: real ConfigReconciler / PoolReconciler over edit histories vs Model/Reconciler.v
+    n_rec, st_rec = reconciler_part.run_reconciler(ctx, None)
     ctx.trusted += [
         "H-sort: proved for the exact model of Go's insertionSort_func (what sort.Slice runs for at most 12 elements: C18_go_insertion_sort_satisfies_hsort); for more than 12 objects of one kind (pdqsort) it remains the premise hsort of the C18 theorems",
         "object names within one listed kind are distinct (premise nodup_names; the API server guarantees it per namespace and MetalLB lists one namespace)",
